@@ -158,43 +158,71 @@ theorem C10_park_delayed (s : Sch) (o : PassOut) (i y ts : Nat) :
 
 example : ((pass (submit (submit { th := { now := 1000 } } [.until_ 0 5000, .ret 7] 0) [.ret 9] 3)).2.results) = [(1, .ok 9)] := by decide
 
-theorem park_cancel (s : Sch) (o : PassOut) (i : Nat) (res : Res) : (park s o i res).1.cancel = s.cancel := by
+theorem park_cancel (s : Sch) (o : PassOut) (i : Nat) (res : Res) (hres : res ≠ .state .cancelled) :
+    (park s o i res).1.cancel = s.cancel := by
   unfold park
   split <;> try rfl
-  split <;> rfl
+  · split <;> rfl
+  · exact absurd rfl hres
+
+theorem park_cancel_sub (s : Sch) (o : PassOut) (i j : Nat) (res : Res) (hj : j ∈ s.cancel) (hne : j ≠ i) :
+    j ∈ (park s o i res).1.cancel := by
+  unfold park
+  split <;> try exact hj
+  · split <;> exact hj
+  · simp only [List.mem_filter]; exact ⟨hj, by simpa using hne⟩
 
 /-- **A cancel request persists until it is honoured.** One iteration of the scheduling loop removes
-from the cancel set only the coroutine it popped and dropped: every other pending request — whether
-made between passes or by a coroutine body during its own slice — is still pending afterwards.
-(In particular resuming a coroutine never clears a request, not even one for itself.) -/
+from the cancel set only the coroutine it popped and dropped, or the coroutine it resumed and that
+ended as Cancelled (its request is served): every other pending request — whether made between
+passes or by a coroutine body during its own slice — is still pending afterwards. (In particular
+resuming a coroutine that goes on living never clears a request, not even one for itself.) -/
 theorem C10_cancel_persists (s : Sch) (o : PassOut) (j : Nat) (hj : j ∈ (checkReady s).cancel)
-    (hnd : (iter s o).2.2 ≠ .dropped j) : j ∈ (iter s o).1.cancel := by
-  unfold iter at hnd ⊢
+    (hnd : (iter s o).2.2 ≠ .dropped j) (hnc : (iter s o).2.2 ≠ .resumed j (.state .cancelled)) :
+    j ∈ (iter s o).1.cancel := by
+  unfold iter at hnd hnc ⊢
   split
   · exact hj
   · rename_i p i q' hpop
-    simp only [hpop] at hnd
+    simp only [hpop] at hnd hnc
     split
     · rename_i hc
       simp only [hc, if_true] at hnd
       have hne : j ≠ i := by intro h; subst h; exact hnd rfl
       simp only [List.mem_filter]
       exact ⟨hj, by simpa using hne⟩
-    · split
+    · rename_i hc
+      simp only [hc, if_false] at hnc
+      split
       · exact hj
-      · rw [park_cancel]; simp only [absorb]; exact List.mem_append_left _ hj
+      · rename_i c hco
+        simp only [hco] at hnc
+        by_cases hji : j = i
+        · subst hji
+          -- the coroutine that was resumed is `j` itself: it did not end as Cancelled
+          have hres : (resume (checkReady s).th c 0).2.2 ≠ .state .cancelled := by
+            intro h
+            apply hnc
+            simp [park, h]
+          rw [park_cancel _ _ _ _ hres]; simp only [absorb]; exact List.mem_append_left _ hj
+        · exact park_cancel_sub _ _ _ _ _ (by simp only [absorb]; exact List.mem_append_left _ hj) hji
 
 /-- A request made by a body during its slice (`Scheduler::try_cancel_coroutine` called from inside
-a coroutine, for itself or another one) is in the cancel set when the slice is over. -/
+a coroutine, for itself or another one) is in the cancel set when the slice is over — unless it was
+for the coroutine itself and that coroutine ended as Cancelled in this very slice. -/
 theorem C10_inslice_request_recorded (s : Sch) (o : PassOut) (p : Int) (i : Nat) (q' : PQ) (c : Co)
     (hpop : (checkReady s).ready.popMin = some (p, i, q')) (hnc : i ∉ (checkReady s).cancel)
     (hc : (checkReady s).cos[i]? = some c) (j : Nat) (hjl : j < (checkReady s).cos.length)
-    (hj : j ∈ (resume (checkReady s).th c 0).1.req) : j ∈ (iter s o).1.cancel := by
+    (hj : j ∈ (resume (checkReady s).th c 0).1.req)
+    (hlive : j ≠ i ∨ (resume (checkReady s).th c 0).2.2 ≠ .state .cancelled) : j ∈ (iter s o).1.cancel := by
   unfold iter
   simp only [hpop, hnc, if_false, hc]
-  rw [park_cancel]
-  simp only [absorb, List.mem_append, List.mem_filter, List.length_set]
-  exact Or.inr ⟨hj, by simpa using hjl⟩
+  have hin : j ∈ (absorb { checkReady s with ready := q', cos := (checkReady s).cos.set i (resume (checkReady s).th c 0).2.1, th := (resume (checkReady s).th c 0).1 }).cancel := by
+    simp only [absorb, List.mem_append, List.mem_filter, List.length_set]
+    exact Or.inr ⟨hj, by simpa using hjl⟩
+  cases hlive with
+  | inl hne => exact park_cancel_sub _ _ _ _ _ hin hne
+  | inr hres => rw [park_cancel _ _ _ _ hres]; exact hin
 
 -- non-vacuity: coroutine 0 requests its own cancellation during its first slice, then suspends:
 -- it is dropped at its next turn and never finishes; coroutine 1 is unaffected
